@@ -117,8 +117,17 @@ fn gen_f(r: &mut Sm, k: Kind, extended: bool) -> f64 {
 
 /// core-domain constructor tuples per family
 pub fn ctor_tuple(r: &mut Sm, fam: &str, types: &[String], names: &[String], extended: bool, lattice: bool) -> Vec<Arg> {
-    // lattice tuple now and then
+    ctor_tuple_flag(r, fam, types, names, extended, lattice).0
+}
+/// (tuple, is-lattice-tuple)
+pub fn ctor_tuple_flag(r: &mut Sm, fam: &str, types: &[String], names: &[String], extended: bool, lattice: bool) -> (Vec<Arg>, bool) {
     if lattice && r.below(8) == 0 {
+        return (lattice_tuple(r, types), true);
+    }
+    (ctor_tuple_core(r, fam, types, names, extended), false)
+}
+fn lattice_tuple(r: &mut Sm, types: &[String]) -> Vec<Arg> {
+    {
         return types
             .iter()
             .map(|t| {
@@ -134,6 +143,8 @@ pub fn ctor_tuple(r: &mut Sm, fam: &str, types: &[String], names: &[String], ext
             })
             .collect();
     }
+}
+fn ctor_tuple_core(r: &mut Sm, fam: &str, types: &[String], names: &[String], extended: bool) -> Vec<Arg> {
     match fam {
         "Uniform" => {
             let a = gen_f(r, Kind::Loc, extended);
@@ -420,7 +431,7 @@ pub fn main(args: &[String]) {
         let ctypes = strs(&methods[0]["ctor"]);
         let cnames = strs(&methods[0]["ctor_names"]);
         for ti in 0..n_tuples {
-            let ctor = ctor_tuple(&mut r, fam, &ctypes, &cnames, thorough && ti % 2 == 1, true);
+            let (ctor, is_lattice) = ctor_tuple_flag(&mut r, fam, &ctypes, &cnames, thorough && ti % 2 == 1, true);
             let ok = crate::call_timeout(&format!("{}::new", fam), &ctor, 2000).starts_with("ok");
             let mut inv_hangs = false;
             let xf = if ok { x_pool_f(&mut r, fam, &ctor, &mut inv_hangs) } else { vec![0.5, 1.0] };
@@ -430,6 +441,12 @@ pub fn main(args: &[String]) {
                 let id = m["id"].as_str().unwrap();
                 let ptypes = strs(&m["params"]);
                 let method = m["method"].as_str().unwrap_or("");
+                // special-value parameter tuples exercise the constructor and parameterless methods only: inside
+                // loops a panic of the implementation cannot be mirrored by the pure model (the sentinel does not
+                // survive comparisons), and such objects are outside every property's domain except C09/C12
+                if is_lattice && !ptypes.is_empty() {
+                    continue;
+                }
                 let reps = if ptypes.is_empty() { 1 } else if ok { n_args } else { 2 };
                 // a hang seen while building the argument pool is reported once, not n_args times
                 let reps = if inv_hangs && (method == "inverse_cdf" || method == "median") { 1 } else { reps };
